@@ -19,7 +19,7 @@ LEVEL = 'proof'
 # ------------------------------------------------------------------------------------------------------------------
 NAMES = ['transpose', 'reshape', 'flatten', 'expand_dims', 'squeeze', 'flip', 'moveaxis', 'tile', 'repeat', 'roll', 'pad',
          'take', 'slice', 'broadcast_to', 'addb', 'mulb', 'where', 'sum', 'prod', 'amax', 'cumsum', 'matmul', 'concatenate',
-         'stack', 'softmax', 'sumrt']
+         'stack', 'softmax', 'sumrt', 'transpose_n', 'reshape_ct', 'sum_ct', 'tile_ct', 'addself', 'concatself']
 USES_B = {'addb', 'mulb', 'where', 'matmul', 'concatenate', 'stack'}
 MAXSIZE = 96
 I32 = 2 ** 31 - 1
@@ -168,6 +168,18 @@ def apply_token(tok, x, st):
         ax = int(f[1])
         e = np.exp(x - np.max(x, axis=ax, keepdims=True))
         return (e / np.sum(e, axis=ax, keepdims=True)).astype(x.dtype)
+    if n == 'transpose_n':
+        return np.transpose(x)
+    if n == 'reshape_ct':
+        return np.reshape(x, (3, 2))
+    if n == 'sum_ct':
+        return np.sum(x, axis=0, keepdims=True)
+    if n == 'tile_ct':
+        return np.tile(x, (2, 1))
+    if n == 'addself':
+        return x + x
+    if n == 'concatself':
+        return np.concatenate([x, x], axis=0)
     raise ValueError(tok)
 
 
@@ -266,6 +278,12 @@ def gen_token(name, x, st, rng, last):
         return 'stack:%d' % rng.randint(0, d) if make_b(st, s, rng) else None
     if name == 'softmax':
         return 'softmax:%d' % rng.randrange(d)
+    if name in ('transpose_n', 'sum_ct', 'addself', 'concatself'):
+        return name
+    if name == 'reshape_ct':
+        return name if prod(s) == 6 else None
+    if name == 'tile_ct':
+        return name if d == 2 else None
     raise ValueError(name)
 
 
@@ -284,10 +302,10 @@ def rand_leaf_shape(rng, first):
     return [2, 3]
 
 
-def instantiate(seq, rng, dtype=np.int64, b_ops=(), tries=60):
+def instantiate(seq, rng, dtype=np.int64, b_ops=(), tries=60, leaf_shape=None):
     """random operands and arguments for the op-name sequence `seq`; returns (leaf shape, tokens, St, value) or None"""
     for _ in range(tries):
-        s = rand_leaf_shape(rng, seq[0])
+        s = leaf_shape(rng) if leaf_shape else rand_leaf_shape(rng, seq[0])
         st = St(dtype, b_ops)
         x = leaf(s, 0, dtype)
         toks = []
@@ -370,22 +388,27 @@ ALL23 = ['transpose', 'reshape', 'flatten', 'expand_dims', 'squeeze', 'flip', 'm
          'slice', 'broadcast_to', 'addb', 'mulb', 'where', 'sum', 'prod', 'amax', 'cumsum', 'matmul', 'concatenate']
 S1 = ['transpose', 'reshape', 'flip', 'slice', 'sum', 'addb', 'tile', 'take']
 S2 = ['pad', 'where', 'cumsum', 'broadcast_to', 'expand_dims', 'moveaxis', 'concatenate', 'matmul']
-S3 = ['flatten', 'squeeze', 'repeat', 'roll', 'mulb', 'prod', 'amax']
+# operations applied to fixed / bounded operands (compile-time arguments keep a fixed shape fixed)
+ST_OPS = ['transpose', 'flatten', 'flip', 'tile', 'pad', 'take', 'slice', 'broadcast_to', 'addb', 'sum', 'prod', 'amax',
+          'transpose_n', 'reshape_ct', 'sum_ct', 'tile_ct', 'addself', 'concatself']
+LEAF_BITS = {'row': 1, 'col': 2, 'nested': 4, 'fixed': 8, 'cshape': 16, 'hybrid': 32, 'bounded': 64, 'cbounded': 128, 'dynfd': 256}
+FIXED_LEAVES = ('nested', 'fixed', 'cshape')
 
 
-def tu(name, m0, m1=(), m2=(), b0=(), defs=(), dtype=np.int64, col_leaf=False, tiers=('quick', 'thorough')):
+def tu(name, m0, m1=(), m2=(), b0=(), defs=(), dtype=np.int64, leaves=('row',), tiers=('quick', 'thorough')):
+    lk = sum(LEAF_BITS[k] for k in leaves)
     extra = ['-DPROTO_VERIF_EVENTS', '-DC10_MASK0=' + mask(m0), '-DC10_MASK1=' + mask(m1), '-DC10_MASK2=' + mask(m2),
-             '-DC10_BMASK0=' + mask(b0)] + list(defs)
+             '-DC10_BMASK0=' + mask(b0), '-DC10_LEAF_KINDS=%d' % lk] + list(defs)
     return dict(name=name, src='h_c10.cpp', flavour='fast', extra=extra, m=[list(m0), list(m1), list(m2)], b0=list(b0),
-                dtype=dtype, col_leaf=col_leaf, tiers=tiers)
+                dtype=dtype, leaves=list(leaves), tiers=tiers)
 
 
 TUS = [
-    # every operation once, all three resolvers
-    tu('h_c10_d1', ALL23 + ['sumrt'], defs=['-DC10_OLD_RESOLVER']),
+    # every operation once, all three resolvers, maybe-typed views
+    tu('h_c10_d1', ALL23 + ['sumrt'], defs=['-DC10_OLD_RESOLVER', '-DC10_MAYBE']),
     # column-major leaf operand
     tu('h_c10_cl', ['transpose', 'reshape', 'flip', 'slice', 'sum', 'addb', 'tile', 'pad', 'cumsum', 'matmul'], ['transpose', 'sum'],
-       defs=['-DC10_COL_LEAF'], col_leaf=True),
+       leaves=['col']),
     # all ordered pairs over two small op sets
     tu('h_c10_p1', S1, S1),
     tu('h_c10_p2', S2, S2),
@@ -400,13 +423,19 @@ TUS = [
     # float elements: same scalar operations in the same order => bit-identical results
     tu('h_c10_fl', ['softmax', 'transpose', 'addb', 'sum', 'mulb'], ['softmax', 'sum', 'transpose', 'addb'],
        defs=['-DC10_ELEM=float'], dtype=np.float32),
+    # result storage: fixed operands (nested std::array, fixed_ndarray, constant-shape ndarray_t) / bounded and mixed operands
+    tu('h_c10_sf', ST_OPS, leaves=['nested', 'fixed', 'cshape'], defs=['-DC10_REPORT_KIND', '-DC10_OUT_KINDS']),
+    tu('h_c10_sb', ST_OPS, leaves=['hybrid', 'bounded', 'cbounded', 'dynfd'], defs=['-DC10_REPORT_KIND', '-DC10_OUT_KINDS']),
 ]
-# thorough: every ordered pair of the 23 operations (blocks of four first operations), cross pairs, deeper trees
+# thorough: every ordered pair of the 23 operations (blocks of four first operations), more depth-3 chains, depth 2 on fixed storage
 for _k in range(0, len(ALL23), 4):
     TUS.append(tu('h_c10_ap%d' % (_k // 4), ALL23[_k:_k + 4], ALL23, defs=['-DC10_NO_INTO'], tiers=('thorough',)))
 TUS.append(tu('h_c10_t3b', ['pad', 'tile', 'mulb', 'cumsum'], ['transpose', 'take', 'where', 'amax'], ['slice', 'addb', 'sum', 'flip'],
               defs=['-DC10_NO_INTO'], tiers=('thorough',)))
-
+TUS.append(tu('h_c10_sf2', ['transpose_n', 'reshape_ct', 'sum_ct', 'tile_ct', 'addself', 'concatself', 'flip', 'pad'],
+              ['transpose_n', 'sum_ct', 'addself', 'tile_ct', 'slice'], leaves=['nested', 'fixed', 'hybrid'],
+              defs=['-DC10_REPORT_KIND', '-DC10_NO_INTO'], tiers=('thorough',)))
+ADL = dict(name='h_c10_adl', src='h_c10adl.cpp', flavour='san')
 
 import os
 if os.environ.get('C10_ONLY'):      # development aid: restrict the run to some harness TUs
@@ -425,19 +454,30 @@ def sequences(t, maxd=3):
 
 def harness_specs(tier):
     specs = [dict(name=t['name'], src=t['src'], flavour=t['flavour'], extra=t['extra']) for t in TUS if tier in t['tiers']]
+    if not os.environ.get('C10_ONLY') or 'h_c10_adl' in os.environ['C10_ONLY']:
+        specs.append(dict(ADL))
     return specs
 
 
 # ------------------------------------------------------------------------------------------------------------------
 # generator
 # ------------------------------------------------------------------------------------------------------------------
-def comp_cases(t, seq, inst, mats, tags, rng, into=True):
+def strip_kind(a):
+    return ' '.join(f for f in a.split(' ') if not f.startswith('kind='))
+
+
+def kind_cmp(a, b):
+    """the storage kind the resolver chose is reported (evidence), not judged"""
+    return strip_kind(a) == strip_kind(b)
+
+
+def comp_cases(t, seq, inst, mats, tags, rng, into=True, la='row'):
     s, toks, st, val = inst
     dtype = t['dtype']
     n = len(toks)
     base = 'a=%s' % fmt(s)
-    if t['col_leaf']:
-        base += ' la=col'
+    if la != 'row':
+        base += ' la=%s' % la
     if st.b is not None:
         base += ' b=%s' % fmt(st.bleaf)
         if st.bops:
@@ -445,9 +485,9 @@ def comp_cases(t, seq, inst, mats, tags, rng, into=True):
     if st.c is not None:
         base += ' c=%s' % fmt(st.c.shape)
     base += ' ops=%s' % ';'.join(toks)
-    cmpf = float_cmp if dtype == np.float32 else None
+    cmpf = float_cmp if dtype == np.float32 else (kind_cmp if '-DC10_REPORT_KIND' in t['extra'] else None)
     vs, vd = fmt(val.shape), toks_of(val, dtype)
-    nt = n >= 2 or bool(st.bops)
+    nt = n >= 2 or bool(st.bops) or la not in ('row', 'col')
     for mat in mats:
         bmats = [0, 1] if st.bops else [0]
         for bmat in bmats:
@@ -455,53 +495,83 @@ def comp_cases(t, seq, inst, mats, tags, rng, into=True):
             req = 'comp %s mat=%d' % (base, mat) + (' bmat=%d' % bmat if st.bops else '')
             yield Case(req, t['name'], oracle=comp_answer(val, dtype, eager_last), cmp=cmpf, nontrivial=nt,
                        mreq='eval_fresh vshape=%s vdata=%s%s' % (vs, vd, ' col=0' if eager_last else ''),
-                       tags=tags + ['comp', 'depth=%d' % n, 'mat=%s' % ('lazy' if mat == 0 else 'all-eager' if mat == (1 << n) - 1 else 'mixed')] +
+                       tags=tags + ['comp', 'leaf=' + la, 'depth=%d' % n, 'mat=%s' % ('lazy' if mat == 0 else 'all-eager' if mat == (1 << n) - 1 else 'mixed')] +
                        ['op=' + x for x in seq] + (['tree'] if st.bops else []))
     if into and val.ndim >= 1 and '-DC10_NO_INTO' not in t['extra']:
         vshape = list(val.shape)
         wrong = [vshape[::-1], [prod(vshape)], vshape + [1], [1] + vshape, [e + 1 for e in vshape], vshape[:-1] + [max(1, vshape[-1] - 1)]]
         wrong = [w for w in wrong if w != vshape and prod(w) > 0]
         outs = [(vshape, 'row'), (vshape, 'col'), (rng.choice(wrong), rng.choice(['row', 'col']))]
+        if '-DC10_OUT_KINDS' in t['extra'] and val.ndim == 2:
+            # fixed / bounded outputs: the type fixes the shape (3,2) / (2,3); hybrid takes any 2-d shape of <= 12 elements
+            outs += [([3, 2], rng.choice(['nested32', 'fixed32'])), ([2, 3], rng.choice(['nested23', 'fixed23']))]
+            if prod(vshape) <= 12:
+                outs.append((vshape, 'hybrid'))
+            w2 = [w for w in wrong if len(w) == 2 and prod(w) <= 12]
+            if w2:
+                outs.append((rng.choice(w2), 'hybrid'))
         for oshape, lay in outs:
             right = oshape == vshape
             if right:
-                exp = 'ok shape=%s buf=%s' % (fmt(oshape), toks_of(val, dtype, 'C' if lay == 'row' else 'F'))
+                exp = 'ok shape=%s buf=%s' % (fmt(oshape), toks_of(val, dtype, 'F' if lay == 'col' else 'C'))
             else:
                 exp = 'ok shape=%s buf=%s events=3:1' % (fmt(oshape), ','.join([tok_of(-7, dtype)] * prod(oshape)))
             # all steps but the last may be eager; the last one is the view that is evaluated into the output
             mat = rng.randrange(1 << (n - 1)) if n > 1 else 0
+            # model: fixed / bounded outputs are row-major buffers whose logical C order is what the harness prints
+            mlay = 'col' if lay == 'col' else 'row'
             yield Case('into %s mat=%d oshape=%s olayout=%s' % (base, mat, fmt(oshape), lay), t['name'], oracle=exp, cmp=cmpf,
-                       mreq='eval_into vshape=%s vdata=%s oshape=%s olayout=%s init=%s' % (vs, vd, fmt(oshape), lay, tok_of(-7, dtype)),
-                       nontrivial=True, tags=tags + ['into', 'out=' + ('right-shape' if right else 'wrong-shape'), 'olayout=' + lay])
+                       mreq='eval_into vshape=%s vdata=%s oshape=%s olayout=%s init=%s' % (vs, vd, fmt(oshape), mlay, tok_of(-7, dtype)),
+                       nontrivial=True, tags=tags + ['into', 'leaf=' + la, 'out=' + ('right-shape' if right else 'wrong-shape'), 'olayout=' + lay])
+
+
+def storage_leaf_shape(la, seq):
+    def f(rng):
+        if la in FIXED_LEAVES:
+            return [2, 3]
+        if 'reshape_ct' in seq:
+            return rng.choice([[2, 3], [3, 2], [1, 6], [6, 1]])
+        while True:
+            s = [rng.randint(1, 4), rng.randint(1, 4)]
+            if 1 < prod(s) <= 12:
+                return s
+    return f
 
 
 def gen_tu(t, tier, rng):
     quick = tier == 'quick'
-    for seq in sequences(t):
-        n = len(seq)
-        if n == 1:
-            k = 4 if quick else 10
-        elif n == 2:
-            k = 2 if quick else 4
-        else:
-            k = 1 if quick else 3
-        if t['name'].startswith('h_c10_ap'):
+    for la in t['leaves']:
+        storage = la not in ('row', 'col')
+        for seq in sequences(t):
+            n = len(seq)
             if n == 1:
-                continue
-            k = 2
-        for j in range(k):
-            inst = instantiate(seq, rng, t['dtype'], t['b0'])
-            if inst is None:
-                continue
-            if n <= 2:
-                mats = list(range(1 << n))
+                k = 4 if quick else 10
+            elif n == 2:
+                k = 2 if quick else 4
             else:
-                mats = [0, 7] + rng.sample([1, 2, 3, 4, 5, 6], 2 if quick else 6)
-            yield from comp_cases(t, seq, inst, mats, [t['name']], rng, into=(j == 0))
+                k = 1 if quick else 3
+            if t['name'].startswith('h_c10_ap'):
+                if n == 1:
+                    continue
+                k = 2
+            if storage:
+                k = 1 if la in FIXED_LEAVES and not quick else (2 if quick else 4)
+                if la in FIXED_LEAVES:
+                    k = 1 if quick else 2
+            for j in range(k):
+                inst = instantiate(seq, rng, t['dtype'], t['b0'], leaf_shape=storage_leaf_shape(la, seq) if storage else None)
+                if inst is None:
+                    continue
+                if n <= 2:
+                    mats = list(range(1 << n))
+                else:
+                    mats = [0, 7] + rng.sample([1, 2, 3, 4, 5, 6], 2 if quick else 6)
+                yield from comp_cases(t, seq, inst, mats, [t['name']], rng, into=(j == 0), la=la)
 
 
 def nothing_cases(tier):
-    """maybe lifting on the views that refuse their arguments: the evaluation of an empty optional is empty"""
+    """maybe lifting: views that refuse their arguments are empty optionals; so must be their evaluation (through the chain
+    interpreter, which unwraps, and through eval applied to the nmtools_maybe<view> itself: op `maybe`)"""
     h = 'h_c10_d1'
     if not any(t['name'] == h for t in TUS):
         return
@@ -510,10 +580,32 @@ def nothing_cases(tier):
                     'comp a=2,3 ops=broadcast_to:3,2 mat=%d' % mat, 'comp a=2,3 ops=pad:1,1,1 mat=%d' % mat]:
             yield Case(req, h, oracle='nothing', mreq='eval_maybe has=0', tags=['comp', 'nothing', 'maybe'], nontrivial=True)
     yield Case('into a=2,3 ops=reshape:4,2 mat=0 oshape=4,2 olayout=row', h, oracle='nothing', model=False, tags=['into', 'nothing'])
+    for s in ([2, 3], [4], [2, 2, 3], [1, 5], [6, 2]):
+        n = prod(s)
+        tos = [[n], [n, 1], [-1, 2], [2, -1], [n + 1], [2, n], [3, -1], s[::-1], [1, n, 1]]
+        for to in tos:
+            try:
+                r = leaf(s, 0, np.int64).reshape(to)
+                exp = comp_answer(r, np.int64, False)
+                mreq = 'eval_maybe has=1 vshape=%s vdata=%s' % (fmt(r.shape), toks_of(r, np.int64))
+            except ValueError:
+                exp, mreq = 'nothing', 'eval_maybe has=0'
+            yield Case('maybe a=%s to=%s' % (fmt(s), fmt(to)), h, oracle=exp, mreq=mreq, nontrivial=True,
+                       tags=['maybe', 'maybe=' + ('empty' if exp == 'nothing' else 'value')])
+
+
+def adl_cases():
+    if os.environ.get('C10_ONLY') and 'h_c10_adl' not in os.environ['C10_ONLY']:
+        return
+    for a, b in (([2, 3], [3, 2]), ([1, 2], [2, 1]), ([3, 2], [2, 4])):
+        r = np.matmul(leaf(a, 0, np.int64), leaf(b, 1000, np.int64))
+        yield Case('adl a=%s b=%s' % (fmt(a), fmt(b)), ADL['name'], dom=False, model=False,
+                   oracle='ok shape=%s data=%s' % (fmt(r.shape), fmt(r.reshape(-1))), tags=['adl', 'known-finding-witness'])
 
 
 def gen(tier, rng):
     yield from nothing_cases(tier)
+    yield from adl_cases()
     for t in TUS:
         if tier in t['tiers']:
             yield from gen_tu(t, tier, rng)
@@ -530,11 +622,31 @@ def post(cases, tier):
             groups.setdefault(key, []).append(c)
     out = []
     for key, cs in groups.items():
-        vals = {' '.join(f for f in c.impl.split(' ') if not f.startswith('col=')) for c in cs}
+        vals = {' '.join(f for f in c.impl.split(' ') if not f.startswith('col=') and not f.startswith('kind=')) for c in cs}
         if len(vals) > 1:
             out.append(('property-fails', 'lazy and eager evaluation orders of one composition differ: %s -> %s' % (key[1], sorted(vals)[:3]),
                         {'cases': [{'req': c.req, 'harness': c.harness, 'impl_answer': c.impl, 'oracle': c.oracle} for c in cs]}, False))
     return out[:5]
+
+
+def coverage_extra(cases, tier):
+    """which result storage the row-major resolver inferred, per operand kind (evidence for 'fixed, bounded or dynamic')"""
+    kinds = {}
+    ops = {}
+    for c in cases:
+        la = [t for t in c.tags if t.startswith('leaf=')]
+        if c.impl and ' kind=' in c.impl and la:
+            k = '%s->%s' % (la[0][5:], c.impl.split(' kind=')[1].split(' ')[0])
+            kinds[k] = kinds.get(k, 0) + 1
+        for t in c.tags:
+            if t.startswith('op='):
+                ops[t[3:]] = ops.get(t[3:], 0) + 1
+    return {'result_storage_by_operand_kind': kinds, 'cases_per_op': ops,
+            'compositions': len({c.req.split(' mat=')[0] for c in cases if c.req.startswith('comp ')})}
+
+
+def k_adl_eager_apply_slice(c):
+    return c.req.startswith('adl ')
 
 
 RULE = ('per harness TU every operation sequence its op masks admit (depth 1: all 23 operations + run-time keepdims; depth 2: all ordered pairs over '
@@ -542,12 +654,27 @@ RULE = ('per harness TU every operation sequence its op masks admit (depth 1: al
         'random operand shapes (rank 1..3, extents 1..4) and arguments in the accepted domain, each evaluated with every lazy/eager split '
         '(bit i of mat = step i through array::fn); per composition: view read element-wise vs eval (row-major, column-major, old resolver), '
         'caller-supplied outputs of the right shape (both layouts) and of a wrong shape; fixed/bounded/dynamic operand storage; maybe-typed views. '
-        'non-trivial = depth >= 2, a tree, a caller-supplied output, or a non-dynamic storage kind')
+        'non-trivial = depth >= 2, a tree, a caller-supplied output, a maybe-typed view, or a non-dynamic storage kind')
 EXHAUSTIVE = {'quick': False, 'thorough': False}
-ANCHORS = {'NmVerif.Eval.evalInto': 'array::evaluator_t<view,none>::operator()(output&) (eval.hpp:141-170)',
-           'NmVerif.Eval.evalFresh': 'array::evaluator_t<view,none>::operator()() + detail::apply_resize (eval.hpp:179-192)',
-           'NmVerif.Driver.C10 eval_maybe': 'array::detail::eval maybe lifting (eval.hpp:218-277)'}
-MANIFEST = dict(text='', note='', technique='Lean 4 proofs about the evaluator model over an arbitrary view denotation + differential correspondence on generated compositions + NumPy oracle')
-ASSUMPTIONS = []
+ANCHORS = {'NmVerif.Eval.evalInto': 'array::evaluator_t<view,none>::operator()(output&) (eval.hpp:141-170), hook event 3 on the silent return',
+           'NmVerif.Eval.evalFresh': 'array::evaluator_t<view,none>::operator()() + detail::apply_resize (eval.hpp:179-192), resolvers eval_result_t<ROW_MAJOR|COLUMN_MAJOR>',
+           'NmVerif.Driver.C10 eval_maybe (Option.map evalFresh)': 'array::detail::eval maybe lifting (eval.hpp:218-277)',
+           'Arr (shape + get) as view denotation': 'nmtools::shape(view) / apply_at(view, ndindex(shape)[i]) read by the harness for every composition'}
+MANIFEST = dict(
+    text='Proof: Lean theorems about the evaluator model over an ARBITRARY view denotation (any shape, any element function): evaluating into a '
+         'supplied output of the right shape makes every element equal the view\'s element for row- and column-major outputs, a wrong-shaped output is '
+         'left untouched, the library-allocated result denotes the view for both resolvers and the two layouts agree, the maybe lifting is empty iff the '
+         'view is, and composition is unobservable: indexing views, element-wise maps, broadcasting binary/ternary ufuncs, reductions and accumulations '
+         'all respect array equivalence, so an outer operation over a lazy inner view equals the same operation over the inner view evaluated first, to any '
+         'depth. Tied to the C++ on every run by generated compositions (chains and binary trees of depth 1..3 over 25 operations) evaluated lazily, '
+         'eagerly and with every inner view materialised, compared with NumPy and with the Lean evaluator model.',
+    note='Lean kernel + propext/Classical.choice/Quot.sound; the evaluator model is hand-written and parameterised by the view (its fidelity and the '
+         'per-operation denotations rest on the correspondence run and on C03-C08); compositions are sampled, not exhaustive; SIMD / device evaluators are '
+         'C12/C13; one genuine defect listed as known finding (ADL picks the eager array::apply_slice inside view::matmul when array/slice.hpp is included).',
+    technique='Lean 4 proofs about the evaluator model over an arbitrary view denotation + differential correspondence on generated compositions + NumPy oracle')
+ASSUMPTIONS = ['each operation\'s own denotation (shape and element function) is what C03-C08/C16/C17 establish; C10 quantifies over the denotation',
+               'arguments stay in the accepted, defect-free domain of C03-C08 (non-negative axes, in-range indices, positive slice steps, no rank-0 reshape)',
+               'integer provenance data stays below 2^31 (generator rejects larger intermediate values); float32 results are compared with NumPy under a 2e-6 relative tolerance and bit-exactly between evaluation strategies',
+               'compile-time-constant index kinds beyond the six ct operations here, clipped shapes and NMTOOLS_DISABLE_STL builds are C09/C11']
 PARTIAL = []
-KNOWN_PREDICATES = {}
+KNOWN_PREDICATES = {'adl_eager_apply_slice': k_adl_eager_apply_slice}
